@@ -4,6 +4,7 @@
 From Coq Require Import ExtrOcamlBasic.
 From Coq Require Import Strings.Byte NArith ZArith List.
 From Coq Require Import Strings.String.
+From LLIR Require Model.DecRead.
 Import ListNotations.
 Local Open Scope list_scope.
 From LLIR Require Import Lib.Bytes Lib.Radix Model.Natsort Model.Assemble Model.Writer Gen.Enums Model.EnumModel Model.IntLit Model.Enc Model.Types Model.TypeString Model.Gep Model.ResultType Model.Numbering Model.MetadataIDs Model.Skeleton Model.History Model.FloatBits Model.FloatX87 Model.FloatPPC Model.Users.
@@ -138,6 +139,9 @@ Definition c10_rt_ppc (bits : Z) : nat * Z :=
   | PVal v => match encode_ppc v with Some (a, b) => (2%nat, (a * 2 ^ 64 + b)%Z) | None => (1%nat, 0%Z) end
   end.
 Definition hex_of_Z (z : Z) : bytes := Radix.print_hex_N (Z.to_N z).
+(* C10, decimal literals of kind double: the 63-bit pattern the reader Model/DecRead.v gives mant * 10^e10 *)
+Definition c10_dec_read (neg : bool) (mant e10 : Z) : Z :=
+  ((if neg then 2 ^ 63 else 0) + DecRead.bits_of_rd (DecRead.read_decimal mant e10))%Z.
 Definition sort_ids (l : list Z) : list Z := isort Z.ltb l.
 
 Extraction "model.ml" byte_of_N_total Byte.to_N
@@ -147,4 +151,4 @@ Extraction "model.ml" byte_of_N_total Byte.to_N
   Enc.global_id Enc.local_id Enc.label_id c11_dec_global c11_dec_local c11_dec_label c11_dec_type c11_dec_comdat c11_dec_metadata
   TypeString.ty_string TypeString.equal_go
   gep_result gep_inst gep_parse gep_expr mk_index c06_ir c06_asm mk_item c08_assign Numbering.it_id mk_gent c08_print_after_parse c17_assign sk_translate sk_translate_rev mk_top mk_use sk_name sk_num sk_ns sk_kind h_insert h_remove h_rename h_print h_query c14_final Numbering.it_named
-  c15_succs c10_dec_ieee c10_rt_ieee c10_dec80 c10_rt80 c10_dec_ppc c10_rt_ppc hex_of_Z.
+  c15_succs c10_dec_ieee c10_rt_ieee c10_dec80 c10_rt80 c10_dec_ppc c10_rt_ppc hex_of_Z c10_dec_read.
